@@ -35,11 +35,11 @@ def parse_shape(s):
 
 def state_of(line):
     """parse '... num=N tid=T chk=C <shape>' from a result line"""
-    m = re.search(r"num=(\d+) tid=(\d+) chk=(\d+) (.*)$", line)
+    m = re.search(r"num=(\d+) tid=(\d+) chk=(\d+) live=(-?\d+) (.*)$", line)
     if not m:
         return None
-    shp = m.group(4).strip()
-    return {"num": int(m.group(1)), "tid": int(m.group(2)), "chk": int(m.group(3)),
+    shp = m.group(5).strip()
+    return {"num": int(m.group(1)), "tid": int(m.group(2)), "chk": int(m.group(3)), "live": int(m.group(4)),
             "shape": None if shp == "-" else shp}
 
 
@@ -128,6 +128,7 @@ class TreeOracle:
         self.unfinished = False     # a walk was left unfinished since the last reset of the iterator
 
     def step(self, op, line):
+        line = re.sub(r"^allocs=\d+ ", "", line)
         w, f = op.split(), line.split()
         a = self.aspects
         I = self.ideal
@@ -238,6 +239,7 @@ class TreeOracle:
 class TreeCheck(Check):
     module = "tree"
     harness = "tree"
+    lib = "libqw.a"          # allocator traffic of the library is counted (harness/allocwrap.h)
     aspects = ()
     assumptions = ["hand model of qtreetbl.c validated on the explored histories only (differential, after every operation: "
                    "shape, colours, keys, values, traversal ids, parent pointers)",
@@ -273,7 +275,7 @@ class TreeCheck(Check):
         keys = self.keys(nkeys)
         edges = ["put %s 7631" % hexs(k) for k in keys] + ["rm %s" % hexs(k) for k in keys]
         impl_dir = vlib.build_impl("asan")
-        hbin = vlib.build_harness(self.harness, impl_dir, "asan", self.wraps)
+        hbin = vlib.build_harness(self.harness, impl_dir, "asan", self.wraps, lib=self.lib)
         seen = {"."}
         frontier = [[]]
         all_ops = []
